@@ -1,3 +1,127 @@
 import VpnCloud.Model.Node
+import VpnCloud.Proofs.Lemmas.NodeLemmasAB
+/-
+  C14: self-connection detection in the handshake, and the abstract peer-exchange argument
+  (every interval halves distances, so a connected bootstrap graph becomes a full mesh).
+-/
 namespace VpnCloud.Proofs.C14
+open VpnCloud VpnCloud.Init VpnCloud.InitMsg
+
+/-- **self_detect**: a handshake message whose salted node-id hash was derived from the receiver's own node id — with any salt, i.e. by any other handshake object of the
+    same node, reached through any address — is refused with the fatal "connected to self" error and leaves the object unchanged -/
+theorem self_detect (env : CryptoEnv) (bodyOf : BodyOf) (ok : Bytes → Bool) (st : InitSt) (w : Bytes) (rnd : Rand) (m : InitMsg) (k salt : Bytes)
+    (hr : readFrom env w st.trusted = .ok (m, k)) (hs : salt.length = 4) (hh : m.hash = salt ++ env.nodeHash salt st.nodeId) :
+    (match handleInit env bodyOf ok st w rnd with | .err st' e => st' = st ∧ e = .cryptoInitFatal | _ => False) := by
+  have hc : checkSaltedNodeIdHash env m.hash st.nodeId = true := by
+    simp [checkSaltedNodeIdHash, hh, ← hs]
+  unfold handleInit
+  simp [hr, hc]
+
+/-! abstract peer exchange: in one interval every node learns its neighbours' neighbours -/
+/-- symmetric graphs on the nodes `0 … n-1` as a decidable edge predicate -/
+structure Graph (n : Nat) where
+  adj : Fin n → Fin n → Bool
+  symm : ∀ a b, adj a b = adj b a
+
+/-- one peer-exchange interval: every node connects to the neighbours of its neighbours -/
+def Graph.step {n : Nat} (g : Graph n) : Graph n :=
+  { adj := fun a c => a ≠ c && (g.adj a c || (List.finRange n).any (fun b => g.adj a b && g.adj b c)),
+    symm := by
+      intro a c
+      have h1 : (decide (a ≠ c)) = decide (c ≠ a) := by
+        by_cases h : a = c
+        · subst h; rfl
+        · have h' : c ≠ a := fun e => h e.symm
+          simp [h, h']
+      have h2 : (fun b => g.adj a b && g.adj b c) = (fun b => g.adj c b && g.adj b a) := by
+        funext b
+        rw [g.symm a b, g.symm b c, Bool.and_comm]
+      show (decide (a ≠ c) && (g.adj a c || (List.finRange n).any (fun b => g.adj a b && g.adj b c)))
+         = (decide (c ≠ a) && (g.adj c a || (List.finRange n).any (fun b => g.adj c b && g.adj b a)))
+      rw [h1, h2, g.symm a c] }
+
+/-- there is a path of at most `k` edges from `a` to `c` -/
+def Graph.reach {n : Nat} (g : Graph n) : Nat → Fin n → Fin n → Prop
+  | 0, a, c => a = c
+  | k + 1, a, c => a = c ∨ ∃ b, g.adj a b = true ∧ g.reach k b c
+
+theorem Graph.reach_refl {n : Nat} (g : Graph n) (k : Nat) (a : Fin n) : g.reach k a a := by
+  cases k with
+  | zero => exact rfl
+  | succ k => exact Or.inl rfl
+
+theorem Graph.reach_succ {n : Nat} (g : Graph n) (k : Nat) (a c : Fin n) (h : g.reach k a c) : g.reach (k + 1) a c := by
+  induction k generalizing a with
+  | zero => exact Or.inl h
+  | succ k ih =>
+    rcases h with h | ⟨b, hab, hb⟩
+    · exact Or.inl h
+    · exact Or.inr ⟨b, hab, ih b hb⟩
+
+theorem Graph.reach_mono {n : Nat} (g : Graph n) (k l : Nat) (hkl : k ≤ l) (a c : Fin n) (h : g.reach k a c) : g.reach l a c := by
+  induction hkl with
+  | refl => exact h
+  | step _ ih => exact g.reach_succ _ a c ih
+
+/-- the edges of the graph after one interval -/
+theorem Graph.step_adj {n : Nat} (g : Graph n) (a c : Fin n) :
+    g.step.adj a c = true ↔ a ≠ c ∧ (g.adj a c = true ∨ ∃ b, g.adj a b = true ∧ g.adj b c = true) := by
+  simp [Graph.step]
+
+/-- **mesh_closure**: distances halve with every interval, so from any connected bootstrap graph on `n` nodes the full mesh is reached after `k` intervals once `2^k ≥ n` -/
+theorem mesh_halving {n : Nat} (g : Graph n) (k : Nat) (a c : Fin n) (h : g.reach (2 * k) a c) : g.step.reach k a c := by
+  induction k generalizing a with
+  | zero => exact h
+  | succ k ih =>
+    have h' : g.reach (2 * k + 1 + 1) a c := h
+    rcases h' with h' | ⟨b, hab, hb⟩
+    · exact Or.inl h'
+    · by_cases hac : a = c
+      · exact Or.inl hac
+      · rcases hb with hb | ⟨b', hbb', hb'⟩
+        · subst hb
+          exact Or.inr ⟨b, (g.step_adj a b).2 ⟨hac, Or.inl hab⟩, g.step.reach_refl k b⟩
+        · by_cases hab' : a = b'
+          · subst hab'
+            exact g.step.reach_succ k a c (ih a hb')
+          · exact Or.inr ⟨b', (g.step_adj a b').2 ⟨hab', Or.inr ⟨b, hab, hbb'⟩⟩, ih b' hb'⟩
+
+/-- `f` applied `k` times (the definition of Mathlib's `Nat.iterate`, which core Lean lacks; local to this namespace) -/
+def Nat.iterate {α : Sort u} (op : α → α) : Nat → α → α
+  | 0, a => a
+  | k + 1, a => Nat.iterate op k (op a)
+
+/-- the local `Nat.iterate` is core's `Nat.repeat` -/
+theorem iterate_eq_repeat {α : Type u} (f : α → α) (k : Nat) (a : α) : Nat.iterate f k a = Nat.repeat f k a := by
+  induction k generalizing a with
+  | zero => rfl
+  | succ k ih =>
+    show Nat.iterate f k (f a) = f (Nat.repeat f k a)
+    rw [ih]
+    clear ih
+    induction k with
+    | zero => rfl
+    | succ k ih => show f (Nat.repeat f k (f a)) = f (f (Nat.repeat f k a)); rw [ih]
+
+theorem mesh_iterate {n : Nat} (k : Nat) : ∀ (g : Graph n), (∀ a c, g.reach (2 ^ k) a c) → ∀ a c, (Nat.iterate Graph.step k g).reach 1 a c := by
+  induction k with
+  | zero => intro g h a c; exact h a c
+  | succ k ih =>
+    intro g h a c
+    show (Nat.iterate Graph.step k g.step).reach 1 a c
+    apply ih g.step
+    intro a c
+    apply mesh_halving
+    have : 2 * 2 ^ k = 2 ^ (k + 1) := by rw [Nat.pow_succ, Nat.mul_comm]
+    rw [this]
+    exact h a c
+
+theorem mesh_closure {n : Nat} (g : Graph n) (hconn : ∀ a c, g.reach n a c) (k : Nat) (hk : n ≤ 2 ^ k) (a c : Fin n) (hne : a ≠ c) :
+    (Nat.iterate Graph.step k g).adj a c = true := by
+  have h := mesh_iterate k g (fun a c => g.reach_mono n (2 ^ k) hk a c (hconn a c)) a c
+  rcases h with h | ⟨b, hab, hb⟩
+  · exact absurd h hne
+  · have hb' : b = c := hb
+    rw [← hb']; exact hab
+
 end VpnCloud.Proofs.C14
